@@ -1748,21 +1748,24 @@ func findRequiredLandmarkChainLeftToRight(r *Runner, chain *syntax.RequiredLandm
 			return false
 		}
 
-		nextStart := first.End
+		// The occurrence found is the leftmost one of any alternative; the match may use a
+		// later occurrence or another alternative at the same place. All that is certain is
+		// that the next landmark begins behind the first rune of this one.
+		nextStart := first.CoreStart + 1
 		for i := 1; i < len(chain.Landmarks); i++ {
 			landmark, ok := findNextRequiredLandmarkRunes(r.Runtext, nextStart, r.Runtextend, chain.Landmarks[i])
 			if !ok {
 				r.Runtextpos = r.Runtextend
 				return false
 			}
-			nextStart = landmark.End
+			nextStart = landmark.CoreStart + 1
 		}
 
-		candidate := first.Start
-		if candidate < r.Runtextpos {
-			candidate = r.Runtextpos
-		}
-		for candidate > r.Runtextpos && chain.LeadingLoopSet.CharIn(r.Runtext[candidate-1]) {
+		// Likewise the match start lies at or before this occurrence, separated from it only
+		// by runes of the leading loop and of the leading whitespace of some alternative.
+		candidate := first.CoreStart
+		for candidate > r.Runtextpos && (chain.LeadingLoopSet.CharIn(r.Runtext[candidate-1]) ||
+			landmarkLeadingWhitespace(chain.Landmarks[0], r.Runtext[candidate-1])) {
 			candidate--
 		}
 		if hasRequiredLengthAt(r, candidate) {
@@ -1774,6 +1777,15 @@ func findRequiredLandmarkChainLeftToRight(r *Runner, chain *syntax.RequiredLandm
 	}
 
 	r.Runtextpos = r.Runtextend
+	return false
+}
+
+func landmarkLeadingWhitespace(landmark syntax.RequiredLandmark, ch rune) bool {
+	for _, alt := range landmark.Alternatives {
+		if alt.LeadingWhitespaceSet != nil && alt.LeadingWhitespaceSet.CharIn(ch) {
+			return true
+		}
+	}
 	return false
 }
 
